@@ -1,6 +1,7 @@
 package main
 
 import (
+	"strings"
 	"unsafe"
 
 	"github.com/mlange-42/arche/ecs"
@@ -25,12 +26,42 @@ func seqIDs(n int) []int {
 	return r
 }
 
+// gc13 is a static component type that generic worlds do NOT register up front: a generic filter may name it (Without)
+// before the world knows it; it is registered by the first ID-based operation that uses component number 13.
+type gc13 struct{ V int64 }
+
+const lateComp = 13
+
+var gcLate = generic.T[gc13]()
+
 func (x *World) gcomps(nums []int) []generic.Comp {
 	r := make([]generic.Comp, len(nums))
 	for i, n := range nums {
+		if n == lateComp {
+			r[i] = gcLate
+			continue
+		}
 		r[i] = gcComps[n]
 	}
 	return r
+}
+
+// ensureLate registers gc13 if an ID-based operation is about to use component 13.
+func (x *World) ensureLate(op Op) {
+	if !x.h.Generic || x.lateDone || strings.HasPrefix(op.Api, "generic.") {
+		return
+	}
+	uses := op.C == lateComp && (op.Op == "Set" || op.Op == "Read")
+	for _, l := range [][]int{op.Ids, op.Add, op.Rem} {
+		uses = uses || contains(l, lateComp)
+	}
+	if !uses || x.w.IsLocked() {
+		return
+	}
+	if id := ecs.ComponentID[gc13](x.w); idNum(id) != lateComp {
+		panic("verif: late generic component type did not get id 13")
+	}
+	x.lateDone = true
 }
 
 // getpos compares the pointers of a generic Get with the ID-based Get, position by position:
@@ -79,6 +110,29 @@ func (x *World) gmapFor(op Op) gmap {
 
 func (x *World) gexchangeFor(op Op) *generic.Exchange {
 	ex := generic.NewExchange(x.w)
+	// every third operation re-configures a long-lived Exchange object instead of building a fresh one:
+	// Adds / Removes REPLACE what was configured before (one object per relation setting, as WithRelation cannot be undone)
+	if x.gexSeq%3 == 2 {
+		key := -1
+		if op.HasRel {
+			key = op.Rel
+		}
+		if x.gexKeep == nil {
+			x.gexKeep = map[int]*generic.Exchange{}
+		}
+		if old, ok := x.gexKeep[key]; ok {
+			x.gexSeq++
+			add, rem := op.Add, op.Rem
+			if add == nil {
+				add = []int{}
+			}
+			if rem == nil {
+				rem = []int{}
+			}
+			return old.Adds(x.gcomps(add)...).Removes(x.gcomps(rem)...)
+		}
+		x.gexKeep[key] = ex
+	}
 	// the builder calls commute; which one comes first alternates with the operation (a configuration must not
 	// depend on the order in which it was put together)
 	x.gexSeq++
